@@ -61,6 +61,19 @@ def replay_lattice(ctx, recs):
             bad.append("C19_GradientShape")
         elif not np.allclose(gv, ge, rtol=1e-9, atol=1e-9):
             bad.append("C19_GradientIsNotDerivative")
+        # array_like inputs: a list and an integer array must give the same value and a gradient of the same shape
+        # (integer dtypes are not exercised: beale_grad accumulates into zeros_like(x) and raises for integer
+        #  input on the pinned tree as well - an input-type matter outside C19's quantifier, noted in DESIGN 13.5)
+        for alt_name, alt in (("list", [float(v) for v in r["x"]]),):
+            try:
+                fa = f(alt)
+                ga = np.asarray(g(alt))
+                if not (np.isscalar(fa) or np.ndim(fa) == 0) or abs(float(fa) - fe) > 1e-9 * (1 + abs(fe)):
+                    bad.append("C19_FunctionValue@" + alt_name)
+                if ga.shape != x.shape or not np.allclose(ga.astype(float), ge, rtol=1e-9, atol=1e-9):
+                    bad.append("C19_GradientIsNotDerivative@" + alt_name)
+            except Exception as ex:  # noqa: BLE001
+                bad.append(f"C19_Raises@{alt_name}:{type(ex).__name__}")
         for c in bad:
             ctx.violation(c, {"kind": "bench-lattice", "fn": r["fn"], "x": r["x"], "expected": {"f": fe, "g": ge.tolist()},
                               "observed": {"f": float(np.asarray(fv).ravel()[0]), "g": gv.tolist()},
